@@ -1350,6 +1350,164 @@ fn many_seq(count: usize, dense: bool) -> Vec<GSpec> {
 }
 
 // ---------------------------------------------------------------------------
+// H: builder histories with rejected glyphs
+// ---------------------------------------------------------------------------
+
+/// letters of a history: 0 simple (odd length, padded), 1 Empty, 2 composite, 3 REJECTED (a simple glyph
+/// with 65536 instruction bytes, which validation refuses)
+fn history_letter(k: u8) -> GSpec {
+    match k {
+        0 => GSpec::Simple { contours: vec![vec![(5, 0, true), (10, 0, false)]], instr: vec![0x4B] },
+        1 => GSpec::Empty,
+        2 => GSpec::Composite {
+            comps: vec![CompSpec { gid: 2, anchor: (true, 1, 1), xf: [0x4000, 0, 0, 0x4000], flags: 2 }],
+            bbox: [0, 0, 10, 10],
+        },
+        _ => GSpec::Simple { contours: vec![vec![(1, 1, true)]], instr: vec![0x11; 65536] },
+    }
+}
+
+/// One builder, one add_glyph call per letter (the caller handles every Err and carries on), then
+/// build: the tables must hold exactly the accepted glyphs, in order.
+fn check_history(run: &Run, letters: &[u8], fillers: usize, l: &mut Local) {
+    l.evals += 1;
+    let case = || json!({"kind":"history","letters":letters,"fillers":fillers});
+    let mut specs: Vec<GSpec> = letters.iter().map(|k| history_letter(*k)).collect();
+    for i in 0..fillers {
+        specs.push(sized_glyph(65548, i as u8));
+    }
+    let mut accepted: Vec<GSpec> = vec![];
+    let mut lens: Vec<usize> = vec![];
+    let r = guard(|| {
+        let mut b = GlyfLocaBuilder::new();
+        let mut verdicts = vec![];
+        for g in specs.iter().map(to_write_glyph) {
+            verdicts.push(b.add_glyph(&g).is_ok());
+        }
+        let (glyf, loca, fmt) = b.build();
+        let gb = dump_table(&glyf).map_err(|e| format!("{e}"))?;
+        let lb = dump_table(&loca).map_err(|e| format!("{e}"))?;
+        Ok::<_, String>((verdicts, gb, lb, fmt))
+    });
+    l.trans += specs.len() as u64 + 3;
+    let (verdicts, glyf_b, loca_b, fmt) = match r {
+        Ok(Ok(x)) => x,
+        Ok(Err(e)) => {
+            run.violation("H: tables of a builder history fail to compile", &e, case());
+            return;
+        }
+        Err(p) => {
+            run.violation(
+                &format!("H: GlyfLocaBuilder panic in a history with a rejected glyph: {} in {}", p.kind(), p.site()),
+                &format!("{} ({}:{})", p.message, p.file, p.line),
+                case(),
+            );
+            return;
+        }
+    };
+    for (i, (spec, ok)) in specs.iter().zip(verdicts.iter()).enumerate() {
+        let oversized = matches!(spec, GSpec::Simple { instr, .. } if instr.len() > 65535);
+        if *ok == oversized {
+            run.violation(
+                if oversized {
+                    "GlyfLocaBuilder::add_glyph accepts a glyph with more than 65535 instruction bytes"
+                } else {
+                    "GlyfLocaBuilder::add_glyph rejects a well-formed glyph after / before a rejected one"
+                },
+                &format!("call {i}"),
+                case(),
+            );
+            return;
+        }
+        if *ok {
+            match guard(|| dump_table(&to_write_glyph(spec))) {
+                Ok(Ok(bytes)) => lens.push(bytes.len()),
+                _ => return,
+            }
+            accepted.push(spec.clone());
+        }
+    }
+    let mut offs = vec![0usize];
+    for n in &lens {
+        offs.push(offs.last().unwrap() + n);
+    }
+    let expect_long = *offs.last().unwrap() >= 0x20000;
+    let long = fmt == LocaFormat::Long;
+    if long != expect_long {
+        run.violation(
+            "LocaFormat of a builder history with a rejected glyph is wrong",
+            &format!("long = {long}, final offset {:#x}", offs.last().unwrap()),
+            case(),
+        );
+        return;
+    }
+    if long {
+        l.long_format += 1;
+    }
+    let n_real = accepted.len().saturating_sub(fillers);
+    let r = guard(|| decode_and_compare(run, "H", &accepted, n_real, &glyf_b, &loca_b, long, &offs, l, &case));
+    if let Err(p) = r {
+        run.violation(
+            &format!("H: glyf/loca reader panic: {} in {}", p.kind(), p.site()),
+            &format!("{} ({}:{})", p.message, p.file, p.line),
+            case(),
+        );
+    }
+}
+
+fn history_family(run: &Run) {
+    let depth = 4usize;
+    run.bound("H.letters", json!(["simple", "Empty", "composite", "REJECTED (65536 instruction bytes)"]));
+    run.bound("H.max_calls", json!(depth));
+    let mut seqs: Vec<Vec<u8>> = vec![];
+    let mut frontier: Vec<Vec<u8>> = vec![vec![]];
+    for _ in 0..depth {
+        let mut next = vec![];
+        for s in &frontier {
+            for k in 0..4u8 {
+                let mut t = s.clone();
+                t.push(k);
+                next.push(t);
+            }
+        }
+        seqs.extend(next.iter().cloned());
+        frontier = next;
+    }
+    run.count("H.histories", seqs.len() as u64);
+    run.count("H.histories_with_a_rejected_glyph", seqs.iter().filter(|s| s.contains(&3)).count() as u64);
+    let locals: Vec<Local> = seqs
+        .par_iter()
+        .map(|s| {
+            let mut l = Local::new();
+            for fillers in [0usize, 2] {
+                check_history(run, s, fillers, &mut l);
+            }
+            l
+        })
+        .collect();
+    for l in locals {
+        l.merge(run, "H");
+    }
+    // boundary probe: 65535 instruction bytes fit the 16-bit length field; whatever the builder does with
+    // them must not be a panic
+    for n in [65534usize, 65535] {
+        let spec = GSpec::Simple { contours: vec![vec![(1, 1, true)]], instr: vec![0x11; n] };
+        let r = guard(|| {
+            let mut b = GlyfLocaBuilder::new();
+            b.add_glyph(&to_write_glyph(&spec)).is_ok()
+        });
+        match r {
+            Ok(accepted) => run.count(&format!("H.instructions_{n}_accepted"), accepted as u64),
+            Err(p) => run.violation(
+                &format!("SimpleGlyph with {n} instruction bytes passes validation but panics when written"),
+                &format!("{} ({}:{})", p.message, p.file, p.line),
+                json!({"kind":"history_probe","instructions":n}),
+            ),
+        }
+    }
+}
+
+// ---------------------------------------------------------------------------
 // D: paths drawn back
 // ---------------------------------------------------------------------------
 
@@ -1998,6 +2156,10 @@ fn body(run: &Run, replay: Option<&Value>) {
                 let c = || case.clone();
                 check_sequence(run, "A2", &seq, 0, &mut l, &c);
             }
+            Some("history") => {
+                let letters: Vec<u8> = case["letters"].as_array().unwrap().iter().map(|k| k.as_u64().unwrap() as u8).collect();
+                check_history(run, &letters, case["fillers"].as_u64().unwrap_or(0) as usize, &mut l);
+            }
             Some("many") => {
                 let seq = many_seq(case["count"].as_u64().unwrap() as usize, case["dense"].as_bool().unwrap_or(false));
                 let c = || case.clone();
@@ -2060,6 +2222,7 @@ fn body(run: &Run, replay: Option<&Value>) {
     });
     family(run, "overlap_family", || overlap_family(run));
     family(run, "sequence_family", || sequence_family(run));
+    family(run, "history_family", || history_family(run));
     family(run, "composite_family", || composite_family(run));
     family(run, "run_family", || run_family(run));
     family(run, "path_family", || path_family(run));
